@@ -114,7 +114,7 @@ def generate(rng, tier="quick"):
     n = rng.choice([2, 2, 2, 3])
     base = W.gen_world(rng, ndefs=rng.randint(2, 7), ref_rate=rng.choice([0.4, 0.55, 0.7]),
                        nested_id_rate=rng.choice([0.15, 0.3, 0.5]), unresolvable_rate=rng.choice([0.0, 0.0, 0.05]),
-                       ninstances=rng.randint(2, 4))
+                       ninstances=rng.randint(2, 4), inst_depth=rng.choice([3, 3, 4]))
     worlds = [base]
     windex = [0]
     shared = []
@@ -146,12 +146,14 @@ def generate(rng, tier="quick"):
         actors.append({"world": windex[i], "cfg": cfg, "program": gen_program(rng, base, sites, faulty, tier),
                        "share_root_with": 0 if i in shared else None})
     if mode == "coop":
-        bias = rng.choice(["uniform", "runs", "uniform"])
+        bias = rng.choice(["uniform", "runs", "alternate"])
         length = rng.randint(10, 60)
         sched = []
         cur = rng.randrange(n)
         for _ in range(length):
-            if bias == "uniform" or rng.random() < 0.25:
+            if bias == "alternate":
+                cur = (cur + 1) % n
+            elif bias == "uniform" or rng.random() < 0.25:
                 cur = rng.randrange(n)
             sched.append(-1 if rng.random() < 0.05 else cur)
         schedule = {"mode": "coop", "order": sched}
